@@ -82,7 +82,7 @@ fn idump(doc: &Doc) -> String { internal_dump(&store_dump(doc)) }
 fn has_gap(doc: &Doc) -> bool { let vs = store_dump(doc); vs.has_pending || vs.has_pending_ds || vs.blocks.iter().any(|(_, b)| b.iter().any(|x| matches!(x, yrs::verif::VBlock::Skip(..)))) }
 
 // ------------------------------------------------------------------------------------------------ C06
-fn c06_case(seed: u64, index: u64, rep: &mut Report) {
+fn c06_case(seed: u64, index: u64, md: &mut Model, rep: &mut Report) {
     let mut r = Rng::for_case(seed, 106, index);
     let n = r.range(2, 4) as usize;
     let cfgs: Vec<DocCfg> = (0..n).map(|_| DocCfg { gc: r.chance(1, 3), ..DocCfg::default() }).collect();   // senders / receivers with and without GC
@@ -104,6 +104,18 @@ fn c06_case(seed: u64, index: u64, rep: &mut Report) {
             let u = { let t = h.reps[a].doc.transact(); match (v2, full) {
                 (false, false) => t.encode_diff_v1(&sv_used), (true, false) => t.encode_diff_v2(&sv_used),
                 (false, true) => t.encode_state_as_update_v1(&sv_used), (true, true) => t.encode_state_as_update_v2(&sv_used) } };
+            // the transcription of Store::write_blocks_from + the delete set (Crdt/WriteBlocks.v), fed the sender's store (taken
+            // from its own full-state diff) and the vector, writes the same update
+            if !v2 && !full {
+                let whole = h.reps[a].doc.transact().encode_diff_v1(&StateVector::default());
+                let m = md.ask(&format!("WBF diff {} {}", hex(&whole), hex(&sv_used.encode_v1())));
+                rep.count("c06_diffs_compared_with_the_transcription_of_write_blocks_from");
+                let mut it = m.split(' ');
+                match (it.next(), it.next()) {
+                    (Some("ok"), Some(hx)) if *hx == hex(&u) || md.ask(&format!("DEC update {}", hx)) == md.ask(&format!("DEC update {}", hex(&u))) => { if m.contains("wf=1") && m.contains("cut=1") { rep.count("c06_diffs_within_the_hypotheses_of_wbf_diff_units"); } }
+                    _ => rep.disagree(json!({"kind": "write_blocks_from transcription", "model": m.chars().take(500).collect::<String>(), "impl": hex(&u), "store": hex(&whole), "sv": hex(&sv_used.encode_v1()), "case": {"stream": 106, "index": index, "seed": seed}})),
+                }
+            }
             let res = if v2 { bb.apply_v2(&u) } else { bb.apply_v1(&u) };
             rep.count("c06_exchanges");
             let ctx = json!({"a": a, "b": b, "v2": v2, "full_state": full, "stale_sv": stale, "update": hex(&u)});
@@ -536,7 +548,7 @@ pub fn run(prop: &str, tier: &str, seed: u64, workers: usize) -> Report {
             if ci as usize % nw != w { continue; }
             if let Ok(only) = std::env::var("YV_ONLY") { if only.parse::<u64>().ok() != Some(ci) { continue; } }
             let res = catch(std::panic::AssertUnwindSafe(|| { let mut r2 = Report::default();
-                match prop { "C06" => c06_case(seed, ci, &mut r2), "C08" => { let mut m = Model::spawn(); c08_case(seed, ci, &mut m, &mut r2) }, "C13" => c13_case(seed, ci, &mut r2), _ => c15_case(seed, ci, &mut r2) }
+                match prop { "C06" => { let mut m = Model::spawn(); c06_case(seed, ci, &mut m, &mut r2) }, "C08" => { let mut m = Model::spawn(); c08_case(seed, ci, &mut m, &mut r2) }, "C13" => c13_case(seed, ci, &mut r2), _ => c15_case(seed, ci, &mut r2) }
                 r2 }));
             match res { Ok(r2) => rep.merge(r2), Err(e) => { rep.evaluations += 1; rep.fail(json!({"property": prop, "class": "panic", "error": e, "case": {"index": ci, "seed": seed}})); } }
         }
